@@ -19,7 +19,7 @@ PROPS = {
         "theorems": ["SV.Props.C01.wrapper_refines_pure_session", "SV.Props.C01.nonce_run_for_any_session_oracle", "SV.Props.C01.each_account_looked_up_once", "SV.Props.C01.source_detectors_are_the_models", "SV.Props.C01.nonce_run_of_every_reachable_pool", "SV.Props.C01.nonce_run", "SV.Props.C01.nonce_run_select", "SV.Props.C01.reachable_lists_sorted"],
         "modules": ["SV.Props.C01"],
         "runs": [{"component": "txcache", "thorough_seeds": 3, "compare_kinds": ["selb"]}],
-        "rule": "random add/rm/clear/sel histories over a small transaction alphabet (hash determines content) under boundary-biased configurations; distinct = distinct (operation kind, canonical output incl. full API dump) pairs observed on the implementation",
+        "rule": "random add/rm/clear/sel histories over a small transaction alphabet (hash determines content) under boundary-biased configurations, plus directed eviction storms; distinct = distinct (operation kind, canonical output incl. full API dump) pairs observed on the implementation; the model/implementation diff is restricted per property (C01-C03: selections from the observed lists; C04-C06: add/rm/clear of the histories with eviction disabled - the pool-wide clauses of C05/C06 are decided on the eviction histories by the Go oracles, whose verdict does not depend on WHICH transactions eviction takes; C07: add/rm/clear of all histories)",
         "assumptions": [
             "Go container/heap, container/list and Go maps are modelled (extract-best over a list, lists, association lists); fees/values/balances are non-negative big integers; hash determines content",
             "the selection time budget is modelled by an arbitrary stop oracle consulted where the code reads the clock",
@@ -29,7 +29,7 @@ PROPS = {
         "theorems": ["SV.Props.C02.balances_cover_for_any_session_oracle", "SV.Props.C02.source_balance_test_is_the_models", "SV.Props.C02.source_balance_test_reads", "SV.Props.C02.source_loop_exits_are_the_models", "SV.Props.C02.constraints_of_every_reachable_pool", "SV.Props.C02.distinct_members", "SV.Props.C02.count_bound", "SV.Props.C02.gas_sum_and_budget", "SV.Props.C02.no_bad_guard", "SV.Props.C02.balances_cover", "SV.Props.C02.current_does_not_wrap", "SV.Props.C02.legacy_gas_counterexample"],
         "modules": ["SV.Props.C02"],
         "runs": [{"component": "txcache", "thorough_seeds": 3, "compare_kinds": ["selb"]}],
-        "rule": "random add/rm/clear/sel histories over a small transaction alphabet (hash determines content) under boundary-biased configurations; distinct = distinct (operation kind, canonical output incl. full API dump) pairs observed on the implementation",
+        "rule": "random add/rm/clear/sel histories over a small transaction alphabet (hash determines content) under boundary-biased configurations, plus directed eviction storms; distinct = distinct (operation kind, canonical output incl. full API dump) pairs observed on the implementation; the model/implementation diff is restricted per property (C01-C03: selections from the observed lists; C04-C06: add/rm/clear of the histories with eviction disabled - the pool-wide clauses of C05/C06 are decided on the eviction histories by the Go oracles, whose verdict does not depend on WHICH transactions eviction takes; C07: add/rm/clear of all histories)",
         "assumptions": [
             "Go container/heap, container/list and Go maps are modelled (extract-best over a list, lists, association lists); fees/values/balances are non-negative big integers; hash determines content",
             "the selection time budget is modelled by an arbitrary stop oracle consulted where the code reads the clock",
@@ -39,7 +39,7 @@ PROPS = {
         "theorems": ["SV.Props.C03.source_price_per_unit_is_floor_saturated", "SV.Props.C03.source_comparator_is_the_models", "SV.Props.C03.source_comparator_reads", "SV.Props.C03.greedy_on_every_reachable_pool", "SV.Props.C03.ppu_is_floor", "SV.Props.C03.comparator_strict_total", "SV.Props.C03.pops_the_best", "SV.Props.C03.order_independent", "SV.Props.C03.stricter_limits_give_prefix", "SV.Props.C03.equals_documented_greedy_procedure", "SV.Props.C03.container_heap_refines_extract_best", "SV.Props.C03.repeatable", "SV.Props.C03.legacy_ppu_truncates"],
         "modules": ["SV.Props.C03"],
         "runs": [{"component": "txcache", "thorough_seeds": 3, "compare_kinds": ["selb"]}],
-        "rule": "random add/rm/clear/sel histories over a small transaction alphabet (hash determines content) under boundary-biased configurations; distinct = distinct (operation kind, canonical output incl. full API dump) pairs observed on the implementation",
+        "rule": "random add/rm/clear/sel histories over a small transaction alphabet (hash determines content) under boundary-biased configurations, plus directed eviction storms; distinct = distinct (operation kind, canonical output incl. full API dump) pairs observed on the implementation; the model/implementation diff is restricted per property (C01-C03: selections from the observed lists; C04-C06: add/rm/clear of the histories with eviction disabled - the pool-wide clauses of C05/C06 are decided on the eviction histories by the Go oracles, whose verdict does not depend on WHICH transactions eviction takes; C07: add/rm/clear of all histories)",
         "assumptions": [
             "Go container/heap, container/list and Go maps are modelled (extract-best over a list, lists, association lists); fees/values/balances are non-negative big integers; hash determines content",
             "the selection time budget is modelled by an arbitrary stop oracle consulted where the code reads the clock",
@@ -49,7 +49,7 @@ PROPS = {
         "theorems": ["SV.Props.C04.source_sender_limit_test_is_the_models", "SV.Props.C04.lists_equal_reference_after_any_history", "SV.Props.C04.hash_index_equals_reference_after_any_history", "SV.Props.C04.insert_is_ordered_insert", "SV.Props.C04.lists_sorted_add", "SV.Props.C04.lists_sorted_remove", "SV.Props.C04.sorted_has_no_duplicates", "SV.Props.C04.add_semantics", "SV.Props.C04.add_leaves_other_senders", "SV.Props.C04.remove_semantics", "SV.Props.C04.lookups_agree", "SV.Props.C04.trim_partial", "SV.Props.C04.trim_incomplete_F3"],
         "modules": ["SV.Props.C04"],
         "runs": [{"component": "txcache", "thorough_seeds": 3, "compare_kinds": ["add", "rm", "clear"], "history_filter": "evict=0"}],
-        "rule": "random add/rm/clear/sel histories over a small transaction alphabet (hash determines content) under boundary-biased configurations; distinct = distinct (operation kind, canonical output incl. full API dump) pairs observed on the implementation",
+        "rule": "random add/rm/clear/sel histories over a small transaction alphabet (hash determines content) under boundary-biased configurations, plus directed eviction storms; distinct = distinct (operation kind, canonical output incl. full API dump) pairs observed on the implementation; the model/implementation diff is restricted per property (C01-C03: selections from the observed lists; C04-C06: add/rm/clear of the histories with eviction disabled - the pool-wide clauses of C05/C06 are decided on the eviction histories by the Go oracles, whose verdict does not depend on WHICH transactions eviction takes; C07: add/rm/clear of all histories)",
         "assumptions": [
             "Go container/heap, container/list and Go maps are modelled (extract-best over a list, lists, association lists); fees/values/balances are non-negative big integers; hash determines content",
             "the selection time budget is modelled by an arbitrary stop oracle consulted where the code reads the clock",
@@ -58,8 +58,8 @@ PROPS = {
     "C05": {
         "theorems": ["SV.Props.C05.invariant_of_every_reachable_pool", "SV.Props.C05.step_add", "SV.Props.C05.step_remove", "SV.Props.C05.step_clear", "SV.Props.C05.step_evict", "SV.Props.C05.step_threshold", "SV.Props.C05.emptied_pool_reports_zero", "SV.Props.C05.no_ghost", "SV.Props.C05.legacy_F4", "SV.Props.C05.legacy_F5", "SV.Props.C05.legacy_F6"],
         "modules": ["SV.Props.C05"],
-        "runs": [{"component": "txcache", "thorough_seeds": 3, "compare_kinds": ["add", "rm", "clear"]}],
-        "rule": "random add/rm/clear/sel histories over a small transaction alphabet (hash determines content) under boundary-biased configurations; distinct = distinct (operation kind, canonical output incl. full API dump) pairs observed on the implementation",
+        "runs": [{"component": "txcache", "thorough_seeds": 3, "compare_kinds": ["add", "rm", "clear"], "history_filter": "evict=0"}],
+        "rule": "random add/rm/clear/sel histories over a small transaction alphabet (hash determines content) under boundary-biased configurations, plus directed eviction storms; distinct = distinct (operation kind, canonical output incl. full API dump) pairs observed on the implementation; the model/implementation diff is restricted per property (C01-C03: selections from the observed lists; C04-C06: add/rm/clear of the histories with eviction disabled - the pool-wide clauses of C05/C06 are decided on the eviction histories by the Go oracles, whose verdict does not depend on WHICH transactions eviction takes; C07: add/rm/clear of all histories)",
         "assumptions": [
             "Go container/heap, container/list and Go maps are modelled (extract-best over a list, lists, association lists); fees/values/balances are non-negative big integers; hash determines content",
             "the selection time budget is modelled by an arbitrary stop oracle consulted where the code reads the clock",
@@ -68,8 +68,8 @@ PROPS = {
     "C06": {
         "theorems": ["SV.Props.C06.holds_for_every_accepted_configuration", "SV.Props.C06.source_threshold_tests_are_the_models", "SV.Props.C06.source_sender_limit_test_is_the_models", "SV.Props.C06.sender_count_bound", "SV.Props.C06.sender_bytes_partial", "SV.Props.C06.eviction_postcondition", "SV.Props.C06.pool_bounds_after_add", "SV.Props.C06.no_pool_wide_drop_when_disabled"],
         "modules": ["SV.Props.C06"],
-        "runs": [{"component": "txcache", "thorough_seeds": 3, "compare_kinds": ["add", "rm", "clear"]}],
-        "rule": "random add/rm/clear/sel histories over a small transaction alphabet (hash determines content) under boundary-biased configurations; distinct = distinct (operation kind, canonical output incl. full API dump) pairs observed on the implementation",
+        "runs": [{"component": "txcache", "thorough_seeds": 3, "compare_kinds": ["add", "rm", "clear"], "history_filter": "evict=0"}],
+        "rule": "random add/rm/clear/sel histories over a small transaction alphabet (hash determines content) under boundary-biased configurations, plus directed eviction storms; distinct = distinct (operation kind, canonical output incl. full API dump) pairs observed on the implementation; the model/implementation diff is restricted per property (C01-C03: selections from the observed lists; C04-C06: add/rm/clear of the histories with eviction disabled - the pool-wide clauses of C05/C06 are decided on the eviction histories by the Go oracles, whose verdict does not depend on WHICH transactions eviction takes; C07: add/rm/clear of all histories)",
         "assumptions": [
             "Go container/heap, container/list and Go maps are modelled (extract-best over a list, lists, association lists); fees/values/balances are non-negative big integers; hash determines content",
             "the selection time budget is modelled by an arbitrary stop oracle consulted where the code reads the clock",
@@ -79,7 +79,7 @@ PROPS = {
         "theorems": ["SV.Props.C07.source_threshold_tests_are_the_models", "SV.Props.C07.source_comparator_is_the_models", "SV.Props.C07.takes_least_valuable", "SV.Props.C07.batch_size", "SV.Props.C07.stops_when_within", "SV.Props.C07.noop_within_thresholds", "SV.Props.C07.loses_nonce_suffix", "SV.Props.C07.disappear_from_every_view", "SV.Props.C07.victim_independent_of_order"],
         "modules": ["SV.Props.C07"],
         "runs": [{"component": "txcache", "thorough_seeds": 3, "compare_kinds": ["add", "rm", "clear"]}],
-        "rule": "random add/rm/clear/sel histories over a small transaction alphabet (hash determines content) under boundary-biased configurations; distinct = distinct (operation kind, canonical output incl. full API dump) pairs observed on the implementation",
+        "rule": "random add/rm/clear/sel histories over a small transaction alphabet (hash determines content) under boundary-biased configurations, plus directed eviction storms; distinct = distinct (operation kind, canonical output incl. full API dump) pairs observed on the implementation; the model/implementation diff is restricted per property (C01-C03: selections from the observed lists; C04-C06: add/rm/clear of the histories with eviction disabled - the pool-wide clauses of C05/C06 are decided on the eviction histories by the Go oracles, whose verdict does not depend on WHICH transactions eviction takes; C07: add/rm/clear of all histories)",
         "assumptions": [
             "Go container/heap, container/list and Go maps are modelled (extract-best over a list, lists, association lists); fees/values/balances are non-negative big integers; hash determines content",
             "the selection time budget is modelled by an arbitrary stop oracle consulted where the code reads the clock",
